@@ -89,8 +89,10 @@ class SourceLocation2D(_AbstractDistribution):
 
         self.observed_data = observed_data
 
-        if type(data_std) is float:
-            data_std = _numpy.ones_like(observed_data) * data_std
+        # Any scalar: a Python float or int, a NumPy scalar (numpy.std returns one), a
+        # 0-d array
+        if _numpy.ndim(data_std) == 0:
+            data_std = _numpy.ones(observed_data.shape) * float(data_std)
 
         try:
             assert data_std.shape == (
@@ -152,7 +154,8 @@ class SourceLocation2D(_AbstractDistribution):
         gv = _numpy.nansum(misfit_grad * data_grad_v)
 
         # Compiling into total gradient
-        total_grad = _numpy.zeros_like(coordinates)
+        # Not zeros_like: an integer model vector would truncate the gradient
+        total_grad = _numpy.zeros(coordinates.shape)
 
         if self.infer_velocity:
             total_grad[0:-1:3, 0] = gx
@@ -457,8 +460,10 @@ class SourceLocation3D(_AbstractDistribution):
 
         self.observed_data = observed_data
 
-        if type(data_std) is float:
-            data_std = _numpy.ones_like(observed_data) * data_std
+        # Any scalar: a Python float or int, a NumPy scalar (numpy.std returns one), a
+        # 0-d array
+        if _numpy.ndim(data_std) == 0:
+            data_std = _numpy.ones(observed_data.shape) * float(data_std)
 
         try:
             assert data_std.shape == (
@@ -524,7 +529,8 @@ class SourceLocation3D(_AbstractDistribution):
         gv = _numpy.nansum(misfit_grad * data_grad_v)
 
         # Compiling into total gradient
-        total_grad = _numpy.zeros_like(coordinates)
+        # Not zeros_like: an integer model vector would truncate the gradient
+        total_grad = _numpy.zeros(coordinates.shape)
 
         if self.infer_velocity:
             total_grad[0:-1:4, 0] = gx
